@@ -249,7 +249,9 @@ def snap_diff(a, b):
 
 def thread_state():
     """State that is local to the calling thread/context."""
-    return (tuple(sorted(numpy.geterr().items())), repr(numpy.geterrcall()), numpy.getbufsize())
+    # numpy >= 2 keeps both the error state and the print options in context variables
+    return (tuple(sorted(numpy.geterr().items())), repr(numpy.geterrcall()), numpy.getbufsize(),
+            repr(sorted(numpy.get_printoptions().items(), key=lambda kv: kv[0])))
 
 
 def _filters_canon():
@@ -265,7 +267,6 @@ def global_state(full=False):
     st = {
         "warnings.filters": (id(warnings.filters), _filters_canon()),
         "warnings.showwarning": id(warnings.showwarning),
-        "printoptions": repr(sorted(numpy.get_printoptions().items(), key=lambda kv: kv[0])),
         "awkward.behavior": (id(awkward.behavior), tuple(awkward.behavior.keys()), tuple(map(id, awkward.behavior.values()))),
         "vector.behavior": (id(vaw.behavior), tuple(vaw.behavior.keys()), tuple(map(id, vaw.behavior.values()))),
         "_awkward_registered": vector._awkward_registered,
